@@ -367,11 +367,32 @@ func buildScenarios(thorough bool) []*scenario {
 				if variant == "natural" && kindSpecs[kk.kind].Class == "typedarray" && keys[g[0]].Str == "length" {
 					continue
 				}
+				c := cfg
+				if !thorough && kk.kind != "plain" {
+					// quick tier: the second pair of functions (g / sg) only for plain objects; with the built-in
+					// prototype only the complete descriptors (the lattice does not look at the prototype)
+					c.acc = accLattice([]uint8{fnAbsent, fnUndef, fnA}, []uint8{fnAbsent, fnUndef, fnA})
+					c.secondary = nil
+					for _, d := range cfg.secondary {
+						if descs[d].Get != fnB && descs[d].Set != fnB {
+							c.secondary = append(c.secondary, d)
+						}
+					}
+					if variant == "natural" {
+						l := lightCfg(values)
+						l.formal = c.formal
+						l.data = append(l.data, c.data[:3]...)
+						c = l
+					}
+				}
 				add(&scenario{Name: fmt.Sprintf("lattice/%s/%s/%s", kk.kind, variant, groupName(g)), Kind: kk.kind, Variant: variant,
-					ChainKeys: g, Ops: buildOps([]keyGroup{g}, cfg), LeafAux: true})
+					ChainKeys: g, Ops: buildOps([]keyGroup{g}, c), LeafAux: true})
 			}
 		}
 	}
+	res = append(res, builtinScenarios(thorough)...)
+	res = append(res, chainScenarios(thorough)...)
+	res = append(res, pairScenarios(thorough)...)
 	res = append(res, orderScenarios(thorough)...)
 	res = append(res, hostScenarios(thorough)...)
 	for _, s := range res {
@@ -393,7 +414,9 @@ func hostScenarios(thorough bool) []*scenario {
 	for _, name := range hostKindOrder {
 		hk := hostKinds[name]
 		for _, g := range hk.Keys {
-			cfg := alphaCfg{data: secondaryDescs([]int{v1, v2}), defRoutes: allDefRoutes, values: []int{v1, v2}, recv: true, static: true, integrity: true, reads: true}
+			sd := secondaryDescs([]int{v1, v2})
+			sd = sd[:len(sd)-1] // without the invalid mix: ToPropertyDescriptor rejects it before the object is involved
+			cfg := alphaCfg{data: sd, defRoutes: allDefRoutes, values: []int{v1, v2}, recv: true, static: true, integrity: true, reads: true}
 			if thorough {
 				cfg.data, cfg.acc, cfg.invalid = dataLattice([]int{v1, v2}), accLattice(allFn, allFn), invalidDescs()
 			}
@@ -435,6 +458,132 @@ func hostScenarios(thorough bool) []*scenario {
 				}
 			}
 			res = append(res, sc)
+		}
+	}
+	return res
+}
+
+// lightCfg: the alphabet of the searches whose subject is not the define lattice: the complete descriptors
+// that construct every property state directly, plus every get / set / has / delete route with every receiver.
+func lightCfg(values []int) alphaCfg {
+	data, acc := generatorDescs(values[:1])
+	return alphaCfg{data: data, acc: acc, defRoutes: []uint8{rtReflect}, values: values, recv: true, static: true, integrity: true, reads: true}
+}
+
+// chainScenarios: prototype chains of depth <= 3 that carry an accessor, a getter-only accessor, a non-writable
+// or a writable data property for the probed key on the parent or the grandparent; and searches in which the
+// prototype itself is changed through every route.
+func chainScenarios(thorough bool) []*scenario {
+	var res []*scenario
+	type kk struct {
+		kind string
+		keys []keyGroup
+	}
+	list := []kk{
+		{"plain", []keyGroup{kg(`"a"`), kg("0", `"0"`), kg("@s1")}},
+		{"array2", []keyGroup{kg("0", `"0"`), kg("2", `"2"`), kg(`"a"`), kg("@s1")}},
+		{"funcm", []keyGroup{kg(`"a"`), kg("0", `"0"`)}},
+		{"string", []keyGroup{kg("2", `"2"`), kg(`"a"`)}},
+		{"args", []keyGroup{kg("0", `"0"`), kg("2", `"2"`), kg(`"a"`)}},
+		{"u8", []keyGroup{kg("2", `"2"`), kg(`"a"`), kg(`"-0"`)}},
+	}
+	decos := []string{"parent:acc", "parent:getonly", "parent:ro", "parent:rw", "grand:acc", "grand:ro"}
+	if thorough {
+		decos = append(decos, "grand:getonly", "grand:rw", "parent:ro+grand:acc", "parent:acc+grand:ro")
+		list = append(list, kk{"sparse2", []keyGroup{kg("0", `"0"`), kg("5000", `"5000"`)}}, kk{"klass", []keyGroup{kg(`"a"`)}}, kk{"f64", []keyGroup{kg("2", `"2"`)}})
+	}
+	for _, k := range list {
+		for _, g := range k.keys {
+			for _, d := range decos {
+				cfg := lightCfg([]int{v1, v2})
+				cfg.formal = kindSpecs[k.kind].Class == "arguments"
+				res = append(res, &scenario{Name: fmt.Sprintf("chain/%s/%s/%s", k.kind, d, groupName(g)), Kind: k.kind, Variant: "chain+" + d,
+					ChainKeys: g, Ops: buildOps([]keyGroup{g}, cfg), LeafAux: true})
+			}
+		}
+		// prototype changes
+		for _, g := range k.keys[:1] {
+			for _, variant := range []string{"chain+parent:acc", "natural"} {
+				cfg := lightCfg([]int{v1})
+				cfg.proto = true
+				cfg.data, cfg.acc = cfg.data[:2], cfg.acc[:1]
+				res = append(res, &scenario{Name: fmt.Sprintf("proto/%s/%s/%s", k.kind, variant, groupName(g)), Kind: k.kind, Variant: variant,
+					ChainKeys: g, Ops: buildOps([]keyGroup{g}, cfg), LeafAux: true})
+			}
+		}
+	}
+	return res
+}
+
+// pairScenarios: two keys at once where they interact: an array index with `length`, two indices, a mapped
+// argument with the formal parameter, a String index with an ordinary key; reduced descriptor lattice.
+func pairScenarios(thorough bool) []*scenario {
+	var res []*scenario
+	type pk struct {
+		kind   string
+		a, b   keyGroup
+		values []int
+	}
+	list := []pk{
+		{"array2", kg("1", `"1"`), kg(`"length"`), []int{v1, vZero, v3}},
+		{"array0", kg("1", `"1"`), kg(`"length"`), []int{v1, vZero, v3}},
+		{"arrayh", kg("1", `"1"`), kg("2", `"2"`), []int{v1}},
+		{"sparse2", kg("5000", `"5000"`), kg(`"length"`), []int{v1, vZero}},
+		{"args", kg("0", `"0"`), kg("1", `"1"`), []int{v1}},
+		{"plain", kg("0", `"0"`), kg(`"a"`), []int{v1}},
+		{"string", kg("0", `"0"`), kg("2", `"2"`), []int{v1}},
+	}
+	for _, p := range list {
+		data, acc := generatorDescs(p.values[:1])
+		cfg := alphaCfg{data: data, acc: acc[:4], defRoutes: []uint8{rtReflect}, values: p.values, integrity: true, reads: true}
+		cfg.data = append(cfg.data, D(descSpec{Val: -1, W: flFalse}), D(descSpec{Val: -1, C: flFalse}), D(descSpec{Val: -1}))
+		if keys[p.b[0]].Str == "length" {
+			for _, v := range p.values {
+				cfg.data = append(cfg.data, D(descSpec{Val: v}), D(descSpec{Val: v, W: flFalse}))
+			}
+		}
+		cfg.formal = kindSpecs[p.kind].Class == "arguments"
+		depth := 3
+		if thorough {
+			depth = 0
+		}
+		res = append(res, &scenario{Name: fmt.Sprintf("pair/%s/%s+%s", p.kind, groupName(p.a), groupName(p.b)), Kind: p.kind, Variant: "natural",
+			ChainKeys: append(append(keyGroup{}, p.a...), p.b...), Ops: buildOps([]keyGroup{p.a[:1], p.b[:1]}, cfg), LeafAux: true, MaxDepth: depth, Cost: 1 << 19})
+	}
+	return res
+}
+
+// builtinScenarios: lazily templated built-ins (Math) and the global object as targets. The initial model state
+// is adopted from an untouched instance; every transition runs on a pristine runtime, so that the first touch of
+// the template by every operation is covered (get / define / delete / ownKeys / setPrototypeOf before anything
+// was materialised).
+func builtinScenarios(thorough bool) []*scenario {
+	var res []*scenario
+	type bk struct {
+		kind string
+		keys []keyGroup
+	}
+	list := []bk{
+		{"math", []keyGroup{kg(`"PI"`), kg(`"abs"`), kg(`"a"`), kg("@toStringTag"), kg("0", `"0"`)}},
+		{"global", []keyGroup{kg(`"NaN"`), kg(`"a"`)}},
+	}
+	for _, b := range list {
+		for _, g := range b.keys {
+			cfg := lightCfg([]int{v1})
+			cfg.proto = true
+			cfg.recv = false
+			cfg.data = append(cfg.data, D(descSpec{Val: -1}), D(descSpec{Val: v2}), D(descSpec{Val: -1, W: flFalse}), D(descSpec{Val: -1, C: flFalse}), D(descSpec{Val: -1, E: flFalse}))
+			cfg.acc = cfg.acc[:2]
+			cfg.acc = append(cfg.acc, D(descSpec{Val: -1, Get: fnUndef}))
+			depth := 2
+			if thorough {
+				depth = 3
+			}
+			if b.kind == "global" && !thorough {
+				depth = 1
+			}
+			res = append(res, &scenario{Name: fmt.Sprintf("builtin/%s/%s", b.kind, groupName(g)), Kind: b.kind, Variant: "natural",
+				ChainKeys: g, Ops: buildOps([]keyGroup{g}, cfg), LeafAux: true, MaxDepth: depth, Cost: 1 << 21})
 		}
 	}
 	return res
